@@ -215,7 +215,11 @@ void reify_composed(const char *tag, Q got, T want_value) {
     using U = typename Q::Unit;
     printf("{\"ev\":\"comp\",\"tag\":\"%s\",", tag);
     unit_core<U>();
-    printf(",\"same_rep\":%d,\"value_ok\":%d}\n", (int)std::is_same<typename Q::Rep, T>::value, (int)(got.in(U{}) == want_value));
+    // "never the stored number": the bits, not just the value (signed zeros, NaN payloads)
+    auto got_value = got.in(U{});
+    const bool same_rep = std::is_same<typename Q::Rep, T>::value;
+    const bool bits_ok = same_rep && sizeof(got_value) == sizeof(want_value) && memcmp(&got_value, &want_value, sizeof(T) > 10 ? 10 : sizeof(T)) == 0;
+    printf(",\"same_rep\":%d,\"value_ok\":%d}\n", (int)same_rep, (int)bits_ok);
 }
 template <typename W>
 void reify_wrapped_unit(const char *tag, W) {
